@@ -568,6 +568,74 @@ func runSenderHistory(r *h.Report, d *h.Driver, ops []string, corpus bool) {
 				}
 				line, impl = lns[i], ret[i]
 			}
+		case "nestreq":
+			// nestreq <d> <c>: a request is being written (counter drawn, mutex held) when ANOTHER goroutine issues the
+			// identical request. Spine.SndEv: the second reqBegin is not enabled while the first holds the mutex; once the
+			// first has finished, the second is withheld with the first's counter (nothing was answered in between).
+			di, _ := strconv.Atoi(f[1])
+			ci, _ := strconv.Atoi(f[2])
+			dest := dests[di%len(dests)]
+			cmd := []model.CmdType{sndCmd(ci)}
+			hid := sw.hashID(dest, cmd)
+			var c2 *model.MsgCounterType
+			fin := make(chan struct{})
+			early := false
+			sw.w.pre = func(m []byte) {
+				sw.w.pre = nil
+				go func() {
+					defer close(fin)
+					c2, _ = sw.s.Request(model.CmdClassifierTypeRead, sw.local, dest, false, cmd)
+				}()
+				select {
+				case <-fin:
+					early = true // entered and left Request while the first caller was inside: not one critical section
+				case <-time.After(300 * time.Millisecond):
+				}
+			}
+			c1, err := sw.s.Request(model.CmdClassifierTypeRead, sw.local, dest, false, cmd)
+			fired := sw.w.pre == nil
+			sw.w.pre = nil
+			if fired {
+				select {
+				case <-fin:
+				case <-time.After(20 * time.Second):
+				}
+			} else {
+				// the outer request was withheld (nothing written): the second one runs afterwards
+				c2, _ = sw.s.Request(model.CmdClassifierTypeRead, sw.local, dest, false, cmd)
+			}
+			wire := sw.wire()
+			done = append(done, op)
+			for _, c := range wire {
+				if sp.seen[c] {
+					r.SpecFail("counter-reused", done, fmt.Sprintf("counter %d written twice", c))
+				}
+				sp.seen[c] = true
+				sp.wire = append(sp.wire, c)
+			}
+			if len(wire) >= 1 {
+				sp.unanswered[hid] = wire[len(wire)-1]
+			}
+			if early && len(wire) == 1 && c2 != nil {
+				// a withheld twin although the first request was not yet on the connection when it was looked up cannot
+				// happen; what can is a second datagram (len(wire) == 2), reported through the model below
+				_ = c2
+			}
+			kind = "nestreq"
+			r.Eval("nest:inner", "")
+			line, impl = fmt.Sprintf("req %d", hid), fmt.Sprintf("%s %d", ctrS(c1), h.B2i(fired))
+			if err != nil {
+				impl = "error " + err.Error()
+			}
+			if wantA := d.Ask(line); impl != wantA && !diverged {
+				r.Mismatch(done, impl, wantA, "sender op "+op+" (first caller) as "+line)
+				diverged = true
+			}
+			// second caller: in the model it runs after the first has finished
+			line, impl = fmt.Sprintf("req %d", hid), fmt.Sprintf("%s %d", ctrS(c2), h.B2i(len(wire) == 2 || (!fired && len(wire) == 1)))
+			if early {
+				impl += " (entered Request while the first caller held the request mutex)"
+			}
 		case "get":
 			c, _ := strconv.Atoi(f[1])
 			line = op
@@ -730,7 +798,7 @@ func TestSender(t *testing.T) {
 	// on the member as written), then a response to ANOTHER open request inside the window, which is harmless
 	runSenderHistory(r, d, []string{"reqf 0 1 0", "req 0 1", "resp 1", "req 0 1", "req 0 2", "reqf 0 3 3", "req 0 2", "req 0 3", "reqf 0 1 0", "reqf 0 1 0"}, true)
 	// overlapping sends of every kind, scheduled through the writer: counters in call order, bytes last-in first-out
-	runSenderHistory(r, d, []string{"nest o0 o1", "nest o2 o3 n", "nest n n n", "nest r0.1 o3", "nest r0.1 n", "nest n r0.2 o1", "nest o3 r0.2 n", "req 0 1", "req 0 2", "nest r0.3 n o2", "get 3", "get 6", "resp 9", "nest r0.1 o0"}, true)
+	runSenderHistory(r, d, []string{"nest o0 o1", "nest o2 o3 n", "nest n n n", "nest r0.1 o3", "nest r0.1 n", "nest n r0.2 o1", "nest o3 r0.2 n", "req 0 1", "req 0 2", "nest r0.3 n o2", "get 3", "get 6", "resp 9", "nest r0.1 o0", "nestreq 1 5", "req 1 5", "resp 19", "nestreq 1 5", "nestreq 1 5"}, true)
 	// 30 requests each answered in flight: the stale entries stay within the bound, the oldest are evicted
 	var stale []string
 	for i := 0; i < 30; i++ {
